@@ -401,3 +401,9 @@ _m("C10", "Proved: canonicalization is idempotent (for the reference conversion 
           "shuffles, respellings, and the rebuilt index buckets.",
    "Axioms: the four Flocq/standard-library axioms for the number theorems; structural theorems axiom-free. Vec::sort_by trusted as a stable sort.",
    "Coq proof (sorted permutation is unique for a total order; Flocq value-dependence of rounding; round trip of the rendering) + correspondence on canonical values, shuffles, respellings and index dumps")
+
+# in-Coq cross-check of extraction + glue (lib/coqx.py) for the families it has term builders for
+PROPS["C12"]["xcheck"] = "c12"
+PROPS["C13"]["xcheck"] = "c13"
+PROPS["C15"]["xcheck"] = "c15"
+PROPS["C08"]["xcheck"] = "c08"
